@@ -9,5 +9,6 @@ pub mod gen;
 pub mod gen_lat;
 pub mod gen_mac;
 pub mod gen_ds;
+pub mod illformed;
 pub mod xform;
 pub mod meta;
